@@ -185,7 +185,7 @@ class Gen:
         if u < 0.90:
             f = self.pick_var(["fn1"])
             if f:
-                return "(map %s %s)" % (f, self.narr(d + 1))
+                return "(map %s (array/slice %s))" % (f, self.narr(d + 1))     # snapshot: f may push to it
             return "(map sim/canon %s)" % self.arr(d + 1)
         if u < 0.95:
             return "(keys %s)" % self.tbl(d + 1)
@@ -328,7 +328,7 @@ class Gen:
             self.bind(n, t, False)
             return ["(def %s %s)" % (n, e)]
         if u < 0.24:
-            t = r.choice(VT)
+            t = r.choice([x for x in VT if x not in ("struct",)])
             n = self.fresh()
             e = self.expr(t)
             self.bind(n, t, True)
@@ -337,7 +337,7 @@ class Gen:
             vs = [(n, t) for sc in self.scopes for n, (t, m) in sc.items() if m]
             if vs:
                 n, t = r.choice(vs)
-                return ["(set %s %s)" % (n, self.expr(t))]
+                return ["(set %s %s)" % (n, self.capped(t, self.expr(t)))]
             return [self.emit()]
         if u < 0.44:
             return self.mutate()
@@ -367,6 +367,19 @@ class Gen:
             return self.tryerr()
         return self.evalform()
 
+    @staticmethod
+    def capped(t, e):
+        """re-assignment inside loops must not grow without bound (s <- s+s thirty times)"""
+        if t == "str":
+            return "(let [s %s] (string/slice s 0 (min (length s) 256)))" % e
+        if t == "buf":
+            return "(let [b %s] (buffer/slice b 0 (min (length b) 256)))" % e
+        if t in ("arr", "narr"):
+            return "(take* 48 %s)" % e
+        if t == "tup":
+            return "(tuple ;(take* 24 %s))" % e
+        return e
+
     def mutate(self):
         r = self.r
         u = r.random()
@@ -385,7 +398,7 @@ class Gen:
         if t and u < 0.68:
             return ["(put %s %s nil)" % (t, self.key(1))]
         if b and u < 0.82:
-            return ["(buffer/push-string %s %s)" % (b, self.str_(1))]
+            return ["(if (< (length %s) 512) (buffer/push-string %s %s))" % (b, b, self.str_(1))]
         if na and u < 0.92:
             return ["(array/push %s %s)" % (na, self.num(1))]
         if na:
